@@ -37,6 +37,8 @@ def needS : Stmt → Nat
   | .doWhile b c => max (needS b) (1 + need c)
   | .block ss => needL ss
   | .empty => 0
+  | .throw_ e => 1 + need e
+  | .tryCatch body handler => max (needL body) (needL handler)
 def needL : List Stmt → Nat
   | [] => 0
   | s :: rest => max (needS s) (needL rest)
@@ -261,6 +263,27 @@ theorem codeS_isSome_iff : ∀ (s : Stmt) (n base : Nat), n ≤ 255 →
     | none => simp [hl] at ih ⊢; omega
     | some bs => simp [hl] at ih ⊢; omega
   | .empty, n, base, hn => by simp [codeS, needS]; omega
+  | .throw_ e, n, base, hn => by
+    simp only [codeS, needS]
+    by_cases h : n = 255
+    · simp [h]; omega
+    simp only [h, if_false]
+    have ih := codeE_isSome_iff e n (n + 1) base (by omega)
+    cases hc : codeE e n (n + 1) base with
+    | none => simp [hc] at ih ⊢; omega
+    | some be => simp [hc] at ih ⊢; omega
+  | .tryCatch body handler, n, base, hn => by
+    simp only [codeS, needS]
+    have ihb := codeL_isSome_iff body n (base + 2) hn
+    cases hb : codeL body n (base + 2) with
+    | none => simp [hb] at ihb ⊢; omega
+    | some bb =>
+      simp [hb] at ihb
+      simp only []
+      have ihh := codeL_isSome_iff handler n (base + 2 + bb.length + 3 + 1) hn
+      cases hh : codeL handler n (base + 2 + bb.length + 3 + 1) with
+      | none => simp [hh] at ihh ⊢; omega
+      | some bh => simp [hh] at ihh ⊢; omega
 
 theorem codeL_isSome_iff : ∀ (ss : List Stmt) (n base : Nat), n ≤ 255 →
     ((codeL ss n base).isSome = true ↔ n + needL ss ≤ 255)
